@@ -18,6 +18,7 @@ package checks
 
 import (
 	"fmt"
+	"golang.org/x/sys/unix"
 	"syscall"
 	"time"
 
@@ -28,7 +29,7 @@ import (
 
 const (
 	tShort = 30 * time.Microsecond
-	tMed   = 1 * time.Millisecond // re-armed from a handler: long enough not to expire within the same poll batch
+	tMed   = 1500 * time.Microsecond // re-armed from a handler: long enough not to expire within the same poll batch; not a whole number of milliseconds
 	tLong  = 10 * time.Second
 )
 
@@ -145,6 +146,13 @@ func (d *tmDriver) schedule(m *mtimer, delay time.Duration, repeating bool) {
 	if willRun {
 		if err != nil {
 			d.x.Fail("timer."+name+"/error", "%s: %s(%v) on a ready timer: %v", m.name, name, delay, err)
+		}
+		// the kernel's view: an accepted schedule with a positive delay means the timerfd is armed (or has already
+		// expired) — a delay that was rounded to zero on the way down disarms it instead, and nothing ever fires.
+		// (A timer that is just expiring reports no time left a few microseconds before it becomes readable: hence the wait.)
+		var cur unix.ItimerSpec
+		if gerr := unix.TimerfdGettime(m.fd, &cur); gerr == nil && cur.Value.Sec == 0 && cur.Value.Nsec == 0 && m.fires == inlineBefore && kern.Poll(m.fd, unix.POLLIN, 20)&unix.POLLIN == 0 {
+			d.x.Fail("timer/accepted-but-not-armed", "%s: %s(%v) returned nil, Scheduled()=%v, but the timerfd is neither armed nor expired: the callback can never run", m.name, name, delay, m.t.Scheduled())
 		}
 		return
 	}
